@@ -40,7 +40,9 @@ LEVEL_TEXT = (
     "segment — proved for every name that does not mix '-' and '_'; a witness shows 'a_b-c' is not symmetric). "
     "Precedence: update_new_last_wins / merge_last_wins (last scalar item wins), update_new_nested_wins / "
     "merge_last_nested_wins (priority 'new' and merge, ANY DEPTH: every scalar of new / of the last dictionary is what "
-    "get returns, for clean key sets), update_old_keeps_old (priority 'old', scalar new values, top level), "
+    "get returns, for clean key sets), update_old_keeps_old (priority 'old', scalar new values, top level) and "
+    "update_old_nested_keeps (priority 'old', ANY DEPTH: a scalar of old stays unless new holds a mapping exactly "
+    "where its path ends — a mapping replaces a scalar under every priority), "
     "updateGo_frame (update writes only under the canonical names of new's keys), collect_env_single / "
     "collect_env_ignores_foreign. Aliasing (Props/C17b over Model/ConfigAlias, where every mapping carries the "
     "identity of its dict object): update_refines_value_model / merge_refines_value_model (identities forgotten, the "
@@ -51,8 +53,7 @@ LEVEL_TEXT = (
     "target of a call changes — inputs_never_mutated), refresh_after_sets_restores (update_defaults, any sets, "
     "refresh: the registered defaults come back with the values they had), share_shortcut_leaks (the same model "
     "with `old[k] = v` leaks across calls — the theorems are about the code). "
-    "VALIDATED ONLY (differential correspondence + oracles on every run): nested 'old' / 'new-defaults' precedence "
-    "beyond the top level; collect_env with several overlapping variables; interpret_value, serialize/deserialize "
+    "VALIDATED ONLY (differential correspondence + oracles on every run): nested 'new-defaults' precedence; collect_env with several overlapping variables; interpret_value, serialize/deserialize "
     "(documented rule / round trip, oracle only: ast.literal_eval, json, base64 are not modelled); collect_yaml / "
     "collect / refresh on real files (order, extension filter, malformed files, precedence vs the model's reverse "
     "fold); expand_environment_variables; check_deprecations with random tables (modelled and diffed); get(default, "
